@@ -5,9 +5,6 @@ import UsualProofs.C09.PoolHist
 namespace UsualProofs.C09
 open Usual.C09
 
-/-- memory contents -/
-abbrev Mem := Nat → UInt8
-
 /-- `memcpy(dst, src, n)` for non-overlapping ranges -/
 def copy (m : Mem) (dst src n : Nat) : Mem :=
   fun a => if dst ≤ a ∧ a < dst + n then m (src + (a - dst)) else m a
